@@ -363,6 +363,38 @@ class DefaultThresh(Contract):
         return [('rms', band(cmp('>=', r, 0), cmp('==', arith('*', arith('*', r, r), cnt), ssq))), ('finite', f)]
 
 
+class DefaultThreshTrains(DefaultThresh):
+    """C15: default_thresh(list of SpikeTrain) = RMS of the pooled ISI lengths of exactly the given trains, a train
+    without spikes contributing the recording length once; 0 for an empty list"""
+    func = 'default_thresh'
+
+    def call_models(self, mode):
+        # nothing by contract: isi_lengths has a recorded defect on trains with spikes on the edges (known finding D11), so a
+        # caller verified against its CONTRACT would not see what the real composition does; the callees are executed
+        return {}
+
+    def setup(self, mode, size, values=None):
+        st = State()
+        t0, t1 = in_real('t_start', values), in_real('t_end', values)
+        trains, accs, objs, pre = [], [], [], [cmp('<', t0, t1)]
+        inputs = {'t_start': ('real', 't_start'), 't_end': ('real', 't_end')}
+        for k, n in enumerate(size):
+            sp = in_array(st, 'tr%d' % k, n, mode, values)
+            S = st.acc(sp)
+            pre.append(spec.valid_train(S, t0, t1, nonempty=False))
+            trains.append(st.new_rec('SpikeTrain', {'__local__': False, 'spikes': sp, 't_start': t0, 't_end': t1}))
+            accs.append(S)
+            inputs['tr%d' % k] = ('array', 'tr%d' % k, S.n)
+            objs.append(dict(spikes='tr%d' % k, t_start='t_start', t_end='t_end'))
+        st.vars.update(spike_train_list=trains)
+        return st, pre, Ctx(mode=mode, accs=accs, t0=t0, t1=t1, inputs=inputs, argorder=[], argspec=[('objlist', 'SpikeTrain', objs)])
+
+    def posts(self, st, ret, c):
+        if not c.accs:
+            return [('empty_list', cmp('==', split(ret)[0], 0))]
+        return DefaultThresh.posts(self, st, ret, c)
+
+
 class Psth(Contract):
     """C20: psth = piecewise-constant function on equally wide bins spanning the recording; bin value = number of spikes
     of all trains in the bin (last bin closed); values sum to the number of spikes inside the recording.
@@ -410,4 +442,79 @@ class Psth(Contract):
             out.append(('count[%d]' % k, cmp('==', Y[k], cnt)))
             tot = arith('+', tot, Y[k])
         out.append(('sum_is_number_of_spikes', cmp('==', tot, len(allv))))
+        return out
+
+
+class Poisson(Contract):
+    """C20: generate_poisson_spikes for EVERY outcome of the random draws: the result is a SpikeTrain carrying the
+    requested edges whose spikes are sorted, lie in [T_start, T_end) and are exactly the cumulative sums of the drawn
+    intervals that fall before T_end.  np.random.exponential is an assumed contract (n finite draws >= 0, nothing else).
+    Bounded: the number of initial draws N = max(1, int(1.2*rate*T)) is fixed by the size, and executions in which the
+    'not enough spikes yet' loop runs more than `unroll_bound` times are not explored."""
+    rel = 'pyspike/spikes.py'
+    func = 'generate_poisson_spikes'
+
+    def setup(self, mode, size, values=None):
+        form, N, K = size
+        self.unroll_bound = K
+        st = State()
+        rate = in_real('rate', values)
+        pre = [cmp('>', rate, 0)]
+        inputs = {'rate': ('real', 'rate'), '__draws__': ('draws',)}
+        if form == 'pair':
+            t0, t1 = in_real('T_start', values), in_real('T_end', values)
+            interval = (t0, t1)
+            inputs.update(T_start=('real', 'T_start'), T_end=('real', 'T_end'))
+            argspec = [('val', 'rate'), ('tuple', ['T_start', 'T_end'])]
+        else:
+            t0, t1 = 0, in_real('T_end', values)
+            interval = t1
+            inputs.update(T_end=('real', 'T_end'))
+            argspec = [('val', 'rate'), ('val', 'T_end')]
+        pre.append(cmp('<', t0, t1))
+        m = arith('*', arith('*', Fraction(6, 5), rate), arith('-', t1, t0))
+        # N = max(1, int(1.2 * rate * T))
+        pre += [cmp('<', m, N + 1)] + ([cmp('>=', m, N)] if N > 1 else [])
+        st.vars.update(rate=rate, interval=interval)
+        ctx = Ctx(mode=mode, N=N, t0=t0, t1=t1, rate=rate, inputs=inputs, argorder=[], argspec=argspec)
+        ctx.draw_values = values.get('__draws__') if values is not None else None
+        return st, pre, ctx
+
+    def posts(self, st, ret, c):
+        f = st.heap[ret.id]
+        S = st.acc(f['spikes'])
+        n = S.n
+        # all draws made on this path, in order
+        k = st.vars.get('__ndraws__', 0)
+        draws = []
+        for call in range(k):
+            cnt = c.N if call == 0 else None
+            i = 0
+            while True:
+                nm = 'draw%d_%d' % (call, i)
+                if cnt is not None and i >= cnt:
+                    break
+                if cnt is None and i >= 1:          # N_append = max(1, int(0.1*rate*T)) = 1 for the sizes used (N <= 10)
+                    break
+                if c.draw_values is not None:
+                    rec = c.draw_values[call] if call < len(c.draw_values) else []
+                    draws.append(num(rec[i]) if i < len(rec) else 0)
+                else:
+                    draws.append(z3.Real(nm))
+                i += 1
+        cs, r = [], c.t0
+        for d in draws:
+            r = arith('+', r, d)
+            cs.append(r)
+        out = [('edges', band(cmp('==', f['t_start'], c.t0), cmp('==', f['t_end'], c.t1))),
+               ('sorted', band(*[cmp('<=', S[i], S[i + 1]) for i in range(n - 1)])),
+               ('inside', band(*[band(cmp('>=', S[i], c.t0), cmp('<', S[i], c.t1)) for i in range(n)])),
+               ('enough_draws', bor(len(cs) == 0, cmp('>=', cs[-1], c.t1)) if cs else True)]
+        # exactly the cumulative sums below T_end (they are non-decreasing, so these form a prefix)
+        cnt = 0
+        for v in cs:
+            cnt = arith('+', cnt, ite(cmp('<', v, c.t1), 1, 0))
+        out.append(('count', cmp('==', cnt, n)))
+        for i in range(min(n, len(cs))):
+            out.append(('cumulative[%d]' % i, cmp('==', S[i], cs[i])))
         return out
